@@ -91,6 +91,10 @@ func c18Run(c *caseCtx) (res caseResult) {
 		}
 		universe = append(universe, &cluster.Member{ID: fmt.Sprintf("m%d", i), Host: fmt.Sprintf("10.0.0.%d:4000", i), Kinds: ks, Region: "r"})
 	}
+	if r.Intn(3) == 0 {
+		// the previous incarnation of this very node: another id (ids are random by default), the same address
+		universe[1+r.Intn(len(universe)-1)].Host = self.Host
+	}
 	prev := map[string]bool{}
 	steps := 1 + r.Intn(30)
 	var script []string
@@ -449,7 +453,7 @@ func c19Run(c *caseCtx) (res caseResult) {
 	wd := watchdog(c.tier)
 	net := newMemNet(r.Int63())
 	defer close(net.stop)
-	allKinds := []string{"ka", "kb", "kc"}
+	allKinds := []string{"ka", "kab", "kc"} // one kind name is a proper prefix of another
 	var nodes []*c19Node
 	nextNode := 0
 	var gone []*c19Node
@@ -585,7 +589,7 @@ func c19Run(c *caseCtx) (res caseResult) {
 					res.violate("after step %d (%s): node %s resolves %s to %v, it is active as %v", step, what, n.id, id, g, pid)
 				}
 			}
-			for _, k := range append(append([]string(nil), allKinds...), "spawned") {
+			for _, k := range append(append([]string(nil), allKinds...), "spawned", "k", "spawn") { // also prefixes that are no kind at all
 				var want []string
 				for id, pid := range active {
 					if strings.HasPrefix(id, k+"/") {
